@@ -30,6 +30,13 @@
 //!             v = Vec<SerializedValues> (the implementation scylla-proxy uses),
 //!             a = RawBatchValuesAdapter::new(BatchValues, one RowSerializationContext per STATEMENT): the way
 //!                 the driver itself (scylla/src/network/connection.rs) hands batch values to Batch
+//!   V <rowkind> <cols> <row> typed rows through the built-in SerializeRow impls (see c09_rows.rs)
+//!   C census                 the public protocol constants (opcodes, consistency codes, batch types, header flags,
+//!                            event names) as the crate defines them, compared with the model's tables; the private
+//!                            query / batch flag bits are compared with a source scan by checks/c09.py
+//!   G <p|q|a|c|b> <len>     one component of <len> untouched zero bytes (PREPARE text, QUERY text, AUTH token, a value
+//!                            cell, a BATCH statement text), everything else minimal, uncompressed: the 2^31 boundary
+//!                            of the [long string] / [bytes] / cell writers; observed `len <body> <field>` or `err ..`
 //!   M <comp> <tr> <len>      make() of a SerializableRequest whose body is <len> untouched zero bytes (sizes only)
 //!   N <serial>               end-to-end: a real Session against mocknode issues session-level calls with known
 //!                            options; the frames the node received are reported next to what was asked
@@ -66,6 +73,8 @@ use vh::*;
 
 #[path = "../c09_e2e.rs"]
 mod e2e;
+#[path = "../c09_rows.rs"]
+mod rows;
 
 // ------------------------------------------------------------------ case text -> values
 
@@ -214,6 +223,61 @@ impl SerializableRequest for Blob {
         Ok(())
     }
 }
+/// sizes only; the component is calloc'ed and never written (the accepted side copies it once into the frame)
+fn run_big_case(what: &str, len: usize) -> String {
+    let need_kib = (len as u64 / 1024) * 3;
+    if len > (1 << 28) && mem_available_kib() < need_kib + (4 << 20) {
+        return "skipped".into();
+    }
+    fn sizes<R: SerializableRequest>(r: &R) -> String {
+        match SerializedRequest::make(r, None, false) {
+            Err(e) => err_class(&e),
+            Ok(sr) => {
+                let d = sr.get_data();
+                let field = u32::from_be_bytes([d[5], d[6], d[7], d[8]]);
+                format!("len {} {}", hex_u((d.len() - 9) as u128), hex_u(field as u128))
+            }
+        }
+    }
+    let zeros = vec![0u8; len];
+    match what {
+        "a" => sizes(&AuthResponse { response: Some(zeros) }),
+        "c" => {
+            let cells = [Cell::Val(zeros)];
+            match mk_values(&cells) {
+                Err(e) => e,
+                Ok(sv) => sizes(&Query {
+                    contents: Cow::Borrowed(""),
+                    parameters: QueryParameters { consistency: Consistency::One, values: Cow::Borrowed(&sv), ..Default::default() },
+                }),
+            }
+        }
+        _ => {
+            // NUL bytes are valid UTF-8
+            let text = String::from_utf8(zeros).expect("utf8");
+            match what {
+                "p" => sizes(&Prepare { query: &text }),
+                "q" => sizes(&Query {
+                    contents: Cow::Borrowed(&text),
+                    parameters: QueryParameters { consistency: Consistency::One, ..Default::default() },
+                }),
+                "b" => {
+                    let stmts = [BatchStatement::Query { text: Cow::Borrowed(text.as_str()) }];
+                    sizes(&Batch {
+                        statements: Cow::Borrowed(&stmts[..]),
+                        batch_type: BatchType::Logged,
+                        consistency: Consistency::One,
+                        serial_consistency: None,
+                        timestamp: None,
+                        values: vec![SerializedValues::new()],
+                    })
+                }
+                _ => "error unknown-case".into(),
+            }
+        }
+    }
+}
+
 fn run_blob_case(c: Option<Compression>, tr: bool, len: usize) -> String {
     match SerializedRequest::make(&Blob(len), c, tr) {
         Err(e) => err_class(&e),
@@ -332,6 +396,68 @@ fn run_case_inner(case: &str) -> String {
             // nothing was observed: the scenario could not run (counted, capped by checks/c09.py)
             Err(e) => format!("skip-env {}", e.replace(' ', "_")),
         };
+    }
+    if f[0] == "C" {
+        // census of the public protocol constants, in the order of the model's constructors
+        use scylla_cql::frame::flag;
+        let ops = [
+            RequestOpcode::Startup as u8,
+            RequestOpcode::Options as u8,
+            RequestOpcode::Query as u8,
+            RequestOpcode::Prepare as u8,
+            RequestOpcode::Execute as u8,
+            RequestOpcode::Register as u8,
+            RequestOpcode::Batch as u8,
+            RequestOpcode::AuthResponse as u8,
+        ];
+        let cons = [
+            Consistency::Any as u16,
+            Consistency::One as u16,
+            Consistency::Two as u16,
+            Consistency::Three as u16,
+            Consistency::Quorum as u16,
+            Consistency::All as u16,
+            Consistency::LocalQuorum as u16,
+            Consistency::EachQuorum as u16,
+            Consistency::Serial as u16,
+            Consistency::LocalSerial as u16,
+            Consistency::LocalOne as u16,
+        ];
+        let ser = [SerialConsistency::Serial as u16, SerialConsistency::LocalSerial as u16];
+        let bt = [BatchType::Logged as u8, BatchType::Unlogged as u8, BatchType::Counter as u8];
+        let ff = [flag::COMPRESSION, flag::TRACING, flag::CUSTOM_PAYLOAD, flag::WARNING];
+        let evs = [
+            EventTypeV2::TopologyChange.to_string(),
+            EventTypeV2::StatusChange.to_string(),
+            EventTypeV2::SchemaChange.to_string(),
+            EventTypeV2::ClientRoutesChange.to_string(),
+        ];
+        return format!(
+            "ops={} cons={} serial={} bt={} fflags={} events={}",
+            hex_list(&ops),
+            hex_list(&cons),
+            hex_list(&ser),
+            hex_list(&bt),
+            hex_list(&ff),
+            evs.iter().map(|e| hex_bytes(e.as_bytes())).collect::<Vec<_>>().join(",")
+        );
+    }
+    if f[0] == "G" {
+        return run_big_case(f[1], hx(f[2]) as usize);
+    }
+    if f[0] == "V" {
+        // typed row -> SerializedValues::from_serializable -> EXECUTE frame
+        let sv = match rows::bind_case(f[1], f[2], f[3]) {
+            Ok(sv) => sv,
+            Err(line) => return line,
+        };
+        let id = [0x0cu8, 0x09];
+        let e = ExecuteV2 {
+            id: CowBytes::from(&id[..]),
+            result_metadata_id: None,
+            parameters: QueryParameters { consistency: Consistency::One, values: Cow::Borrowed(&sv), ..Default::default() },
+        };
+        return observe(&e, None, false, stream_for(case));
     }
     let c = comp(f[1]);
     let tr = f[2] == "1";
@@ -871,6 +997,13 @@ fn boundary_cases() -> Vec<String> {
     // (needs ~5 GiB for ~3 s; skipped if memory is short)
     v.push("L 3 400".into());
     v.push("L 0 0".into());
+    v.push("C census".into());
+    // the 2^31 boundary of the [long string] / [bytes] / cell writers: refusals on untouched zero pages
+    for w in ["p", "q", "a", "c", "b"] {
+        for len in ["0", "3", "10000", "80000000", "80000001"] {
+            v.push(format!("G {} {}", w, len));
+        }
+    }
     // the 2^32 boundary of make / compress_append(LZ4) / snap without resident memory
     for len in ["0", "a", "ffffffff", "100000000", "100000005"] {
         v.push(format!("M n 0 {}", len));
@@ -897,9 +1030,14 @@ fn main() {
     }
     let mut r = Rng::new(a.seed);
     let mut fixed = boundary_cases();
+    fixed.extend(rows::boundary_cases());
     if a.tier == "thorough" {
         // a real 4 GiB + 34 byte BATCH body (needs ~5 GiB for ~3 s; reported as skipped if memory is short)
         fixed.push("L 4 40000000".into());
+        // the accepted side of the 2^31 boundary: 2 GiB - 1 component, copied once into the frame (~4 GiB, ~2 s each)
+        for w in ["p", "q", "a", "c", "b"] {
+            fixed.push(format!("G {} 7fffffff", w));
+        }
     }
     for c in fixed {
         let o = run_case(&c);
@@ -923,7 +1061,8 @@ fn main() {
         }
     }
     for _ in 0..a.n {
-        let c = match r.below(20) {
+        let c = match r.below(23) {
+            20..=22 => rows::gen_case(&mut r),
             0..=5 => {
                 let m = gen_mask(&mut r);
                 gen_query(&mut r, m)
